@@ -451,3 +451,16 @@ func TestVfC19Concurrent(t *testing.T) {
 	}
 	fmt.Printf("VFSUMMARY {\"goroutines\":%d,\"each\":%d,\"total\":%d}\n", g, m, g*m)
 }
+
+// TestVfC19WrapDemo shows the mechanism behind the uniqueness limit on the real code: the clock
+// sequence has 14 bits, so the same time presented again 2^14 calls later gives the same UUID.
+// Informational (UUIDFromTime with an explicit time is not "generated from the current time").
+func TestVfC19WrapDemo(t *testing.T) {
+	tm := time.Unix(1700000000, 0)
+	u1 := UUIDFromTime(tm)
+	for i := 0; i < 1<<14-1; i++ {
+		UUIDFromTime(tm.Add(100 * time.Nanosecond))
+	}
+	u2 := UUIDFromTime(tm)
+	fmt.Printf("VFWRAP first=%s after_16384_calls=%s equal=%v\n", u1, u2, u1 == u2)
+}
